@@ -70,3 +70,6 @@ SPEC['rule'] += (' Added after the seeded-change rounds: ' +
     "Oracle-only scenarios (shared with C02/C03): same-sid-two-idle-polls (both polls under one id must complete at their timeouts and leave gauge and id map clean), an answer that arrives before any offer followed by the poll's timeout, several polls whose timers fall in the same millisecond.")
 
 SPEC['thorough_passes'] = 3  # the thorough tier runs the whole harness under this many consecutive seeds
+
+SPEC['rule'] += (' ' +
+    'Added after round four: clients whose requests come through the real HTTP handlers (POST and AMP GET), are matched and then drop their connection: the registration must be gone at the client timeout.')
